@@ -56,19 +56,19 @@ type decWalker struct {
 	data   ssa.Value
 	assign map[string]bool
 	// names of fields by read signature "off|width|shift" from the encoder layout
-	fieldAt func(off string, width int) string
-	relName func(sig string) string
-	mem     map[memKey]ssa.Value
-	phi     map[*ssa.Phi]ssa.Value
-	loopSym map[*ssa.Phi]string
-	fe      *formEval
-	header  []dread
-	records []dread
-	inLoop  bool
-	step    map[string]string // loop symbol -> step form
-	init    map[string]string // loop symbol -> initial form
-	bound   string            // loop bound description
-	visited int
+	fieldAt  func(off string, width int) string
+	relName  func(sig string) string
+	mem      map[memKey]ssa.Value
+	phi      map[*ssa.Phi]ssa.Value
+	loopSym  map[*ssa.Phi]string
+	fe       *formEval
+	header   []dread
+	records  []dread
+	inLoop   bool
+	step     map[string]string // loop symbol -> step form
+	init     map[string]string // loop symbol -> initial form
+	bound    string            // loop bound description
+	visited  int
 	appended bool
 }
 
